@@ -484,6 +484,17 @@ def _call_impl(c: ast.Call, ev, t: str):
     if name in ("torch.clamp_min", "torch.clamp_max") and len(c.args) == 2:
         a, v = _as_exact(ev(c.args[0])), ev(c.args[1])
         return np.where(a < v, v, a) if name.endswith("min") else np.where(a > v, v, a)
+    if name == "torch.isclose" and len(c.args) == 2:
+        a, b = _as_exact(ev(c.args[0])), _as_exact(ev(c.args[1]))
+        rtol, atol = [next((ev(k.value) for k in c.keywords if k.arg == n_), d_) for n_, d_ in (("rtol", Fraction(1, 10 ** 5)), ("atol", Fraction(1, 10 ** 8)))]
+
+        def _close(x_, y_):
+            if isinstance(x_, float) or isinstance(y_, float):
+                return x_ == y_ or (x_ == x_ and y_ == y_ and abs(x_) != math.inf and abs(y_) != math.inf and abs(x_ - y_) <= atol + rtol * abs(y_))
+            return abs(x_ - y_) <= Fraction(atol) + Fraction(rtol) * abs(y_)
+        if _is_arr(a) or _is_arr(b):
+            return np.vectorize(_close, otypes=[bool])(a, b)
+        return _close(a, b)
     if name in ("math.log", "math.exp", "math.sqrt") and len(c.args) == 1 and not c.keywords:
         v = ev(c.args[0])
         if _is_arr(v) or isinstance(v, bool) or not isinstance(v, (int, float, Fraction)):
